@@ -8,6 +8,8 @@ CONSTANTS
  SubjSel = {"ror"}
  Spells = {"dig"}
  Dopts = {"check"}
+ Inits <- InitsMC0
+ NAs <- NAsNone
  MaxOps = 3
  MaxConc = 3
  SameSubject = TRUE
